@@ -619,3 +619,25 @@ func TestScenarios(t *testing.T) {
 		report(t, s, res, func() { t.Skip("known") })
 	})
 }
+
+// TestScenariosOneP: the same scenarios on a process that runs with GOMAXPROCS=1 (a one-CPU container):
+// goroutines still interleave - the tripwire structure yields inside its critical section - so the
+// wrappers' mutual exclusion is needed there exactly as anywhere else. The wrappers are constructed
+// while GOMAXPROCS is 1.
+func TestScenariosOneP(t *testing.T) {
+	if vlib.Replaying() {
+		t.Skip()
+	}
+	prev := runtime.GOMAXPROCS(1)
+	defer runtime.GOMAXPROCS(prev)
+	vlib.Check(t, "scenarios-one-p", 600, 3000, func(t *rapid.T) {
+		s := genScenario(t)
+		st := vlib.S()
+		st.Eval("scenarios-one-p")
+		res := runScenario(s)
+		if s.Wrapped == "tripwire" && s.Yields > 0 && len(s.Threads) >= 2 {
+			st.NonTrivial("scenarios-one-p", s.String())
+		}
+		report(t, s, res, func() { t.Skip("known") })
+	})
+}
